@@ -93,7 +93,9 @@ def classify_loops(prog, f):
         elif f.name == "cbor_load" and "cbor_stream_decode" in calls:
             out.append(dict(header=hdr, kind="named:decode-loop", ok=True, where=where,
                             detail="progress: a FINISHED result has read >= 1 (C08.claim) and the remainder shrinks; any other result leaves the loop"))
-        elif f.name == "cbor_load" and "_cbor_stack_pop" in calls:
+        elif "_cbor_stack_pop" in calls and all(
+                any(i.op == "call" and i.callee == "_cbor_stack_pop" and f.dominates_block(f.bmap[bid], lt) for bid in body for i in f.bmap[bid].insts)
+                for lt in latches):
             # drain loop: every iteration pops a frame
             pops_dom = all(any(i.op == "call" and i.callee == "_cbor_stack_pop" for bid in body for i in f.bmap[bid].insts) for _ in [0])
             out.append(dict(header=hdr, kind="named:drain-loop", ok=pops_dom, where=where, detail="each iteration pops one frame of a finite stack"))
